@@ -611,7 +611,7 @@ def scenario(rec, rng, cid):
     rec.sample(case, limit=3)
 
 
-def run_shard(rec, tier, seed, shard, nshards):
+def _run_shard(rec, tier, seed, shard, nshards):
     for i in range(N_CASES[tier]):
         scenario(rec, core.case_rng(seed, ID, shard, i), [shard, i])
 
@@ -619,3 +619,11 @@ def run_shard(rec, tier, seed, shard, nshards):
 def replay(rec, case):
     cid = case["case"]["id"]
     scenario(rec, core.case_rng(case["seed"], ID, cid[0], cid[1]), cid)
+
+
+def run_shard(rec, tier, seed, shard, nshards):
+    state0 = core.library_state()
+    try:
+        _run_shard(rec, tier, seed, shard, nshards)
+    finally:
+        core.check_library_state(rec, state0, {"id": [shard, -1]})
